@@ -269,6 +269,21 @@ impl Probe for MemSink<u64> {
     }
 }
 
+/// The user-defined sink: only the required operations are implemented, so `write_bytes_aligned`,
+/// `write_twoc` and `write_zeros` are the trait's provided methods.
+impl Probe for ModelSink {
+    const NAME: &'static str = "user sink (provided methods)";
+    fn bits(&self) -> (usize, Vec<u8>) {
+        (self.bits.len(), crate::bitmodel::bytes_of_bits(&self.bits))
+    }
+    fn tail_ok(&self) -> bool {
+        true
+    }
+    fn exports(&self) -> (Vec<u8>, String) {
+        (crate::bitmodel::bytes_of_bits(&self.bits), self.bits.iter().map(|b| if *b { '1' } else { '0' }).collect())
+    }
+}
+
 fn seq_json(sink: &str, start: usize, ops: &[&Op]) -> Value {
     json!({"sink_ops": {"sink": sink, "start_offset": start, "ops": ops}})
 }
@@ -503,6 +518,8 @@ pub fn run(args: &Args, rep: &Arc<Report>) {
             let start = so["start_offset"].as_u64().unwrap_or(0) as usize;
             if so["sink"].as_str() == Some("MemSink<u8>") {
                 run_sequence::<MemSink<u8>>(rep, start, &refs, true);
+            } else if so["sink"].as_str() == Some(<ModelSink as Probe>::NAME) {
+                run_sequence::<ModelSink>(rep, start, &refs, true);
             } else {
                 run_sequence::<MemSink<u64>>(rep, start, &refs, true);
             }
@@ -536,9 +553,10 @@ pub fn run(args: &Args, rep: &Arc<Report>) {
     rep.sample(seq_json("MemSink<u8>", 61, &[&alpha[alpha.len() - 1], &alpha[7]]));
     sweep::<MemSink<u8>>(rep, &alpha, &reduced, thorough);
     sweep::<MemSink<u64>>(rep, &alpha, &reduced, thorough);
+    sweep::<ModelSink>(rep, &alpha, &reduced, thorough);
     run_user_sink(rep, thorough);
     rep.set_rule(&format!(
-        "operation alphabet of {} ops (write<u8..u64>, write_msbs/write_lsbs for every n in 0..=BITS, write_twoc for every width 1..=64, write_zeros, align_to_byte, write_bytes_aligned of 0..=3 bytes; {} operand values); for both MemSink<u8> and MemSink<u64>: every start offset 0..=63 x every op x every op, followed by a probe write(0xFFu8); after every step len(), stored bits, zero tail (and at depth 1 write_to_byte_slice / to_bitstring) are compared with an ideal MSB-first bit string{}; plus: every stream/frame/header/subframe of a corpus written into a user sink implementing only the required methods, into ByteSink and into MemSink<u64> must hold the same bits; non-trivial = a (sink, start offset, first op) whose whole fan-out was executed and agreed",
+        "operation alphabet of {} ops (write<u8..u64>, write_msbs/write_lsbs for every n in 0..=BITS, write_twoc for every width 1..=64, write_zeros, align_to_byte, write_bytes_aligned of 0..=3 bytes; {} operand values); for MemSink<u8>, MemSink<u64> and a user-defined sink that implements only the required operations (so that the trait's provided write_bytes_aligned / write_twoc / write_zeros run): every start offset 0..=63 x every op x every op, followed by a probe write(0xFFu8); after every step len(), stored bits, zero tail (and at depth 1 write_to_byte_slice / to_bitstring) are compared with an ideal MSB-first bit string{}; plus: every stream/frame/header/subframe of a corpus written into a user sink implementing only the required methods, into ByteSink and into MemSink<u64> must hold the same bits; non-trivial = a (sink, start offset, first op) whose whole fan-out was executed and agreed",
         alpha.len(),
         if thorough { "all 7" } else { "3 of 7" },
         if thorough { format!("; depth 3 over a reduced alphabet of {} ops", reduced.len()) } else { String::new() }
